@@ -22,6 +22,7 @@ def command_events(ctx, thorough):
     cnts = {}
 
     def mkfile(name, ids):
+        os.makedirs(os.path.dirname(os.path.join(d, name)), exist_ok=True)
         with open(os.path.join(d, name), "w") as f:
             for i in ids:
                 lens[i] = rng.randint(1, 90)
@@ -36,10 +37,21 @@ def command_events(ctx, thorough):
         [mkfile("e1.fa", []), mkfile("b.fa", range(nrec + 1, nrec + 8)), mkfile("e2.fa", []), mkfile("c.fa", range(nrec + 8, nrec + 12))],
         [mkfile("one.fa", [nrec + 20])],
     ]
+    # a directory given as argument: every sequence file below it is read once (the order of the files is the
+    # command's business: it is taken from the output, the rest is judged as for a list of files)
+    # (below a directory the commands take the files named *.fasta, *.fastq, *.seq, *.gb, *.dat, *.ecopcr [.gz] only)
+    dirfiles = {"dir1/x.fasta": list(range(nrec + 30, nrec + 35)), "dir1/sub/y.fasta": list(range(nrec + 35, nrec + 38)),
+                "dir1/sub/deep/z.fasta": list(range(nrec + 38, nrec + 44)), "dir1/sub/deep/empty.fasta": [], "dir1/w.fasta": [nrec + 44]}
+    for name, ids in dirfiles.items():
+        mkfile(name, ids)
+    sets.append(["dir1"])
+    sets.append(["one.fa", "dir1/sub"])
     recs = {tuple(fs): None for fs in sets}
     order = {"a.fa": list(range(1, nrec + 1)), "empty.fa": [], "e1.fa": [], "e2.fa": [], "b.fa": list(range(nrec + 1, nrec + 8)),
              "c.fa": list(range(nrec + 8, nrec + 12)), "one.fa": [nrec + 20]}
-    maxid = nrec + 20
+    order.update(dirfiles)
+    fileof = {i: f for f, ids in dirfiles.items() for i in ids}
+    maxid = nrec + 44
     lenvec = [lens.get(i, 0) for i in range(1, maxid + 1)]
     cntvec = [cnts.get(i, 0) for i in range(1, maxid + 1)]
     cpus = [1, 2, 3, 8, 32] if thorough else [1, 2, 3, 8]
@@ -52,22 +64,33 @@ def command_events(ctx, thorough):
                     argv = [os.path.join(bindir, cmd), "--max-cpu", str(cpu), "--batch-size", str(bs)] + extra + fs
                     jobs.append({"argv": argv, "cwd": d})
                     evs.append({"op": "cmd", "cmd": cmd, "argv": [cmd, "--max-cpu", str(cpu), "--batch-size", str(bs)] + extra + fs,
-                                "cpu": cpu, "bs": bs, "files": [order[f] for f in fs], "lens": lenvec, "minlen": minlen,
-                                "hung": 0, "fatal": 0})
+                                "cpu": cpu, "bs": bs, "files": [order[f] for f in fs if f in order], "lens": lenvec, "minlen": minlen,
+                                "hung": 0, "fatal": 0, "_dirs": [f for f in fs if f not in order]})
                 for cmd in ("obicount", "obisummary"):
                     argv = [os.path.join(bindir, cmd), "--max-cpu", str(cpu), "--batch-size", str(bs)] + fs
                     jobs.append({"argv": argv, "cwd": d})
                     evs.append({"op": "count", "cmd": cmd, "argv": [cmd, "--max-cpu", str(cpu), "--batch-size", str(bs)] + fs,
-                                "cpu": cpu, "bs": bs, "files": [order[f] for f in fs], "lens": lenvec, "counts": cntvec,
-                                "hung": 0, "fatal": 0})
+                                "cpu": cpu, "bs": bs, "files": [order[f] for f in fs if f in order], "lens": lenvec, "counts": cntvec,
+                                "hung": 0, "fatal": 0, "_dirs": [f for f in fs if f not in order]})
     res = ctx.run_many(jobs, timeout=120)
     import json as _json
     for e, r in zip(evs, res):
         e["rc"] = r["rc"]
         e["hung"] = 1 if r["timeout"] else 0
         text = r["out"].decode("utf8", "replace")
+        dirs = e.pop("_dirs")
         if e["op"] == "cmd":
             e["out"] = [int(l[2:].split()[0]) for l in text.splitlines() if l.startswith(">r")]
+        if dirs:
+            # the files below the directories, in the order their first records come out (files without record last)
+            below = [f for f in dirfiles if any(f.startswith(x + "/") for x in dirs)]
+            seen = []
+            for i in e.get("out", []):
+                f = fileof.get(i)
+                if f in below and f not in seen:
+                    seen.append(f)
+            e["files"] = e["files"] + [order[f] for f in seen + sorted(f for f in below if f not in seen)]
+        if e["op"] == "cmd":
             continue
         e["variants"] = e["reads"] = e["symbols"] = -1
         e["out"] = []
